@@ -12,7 +12,7 @@ MODELRUN = os.path.join(WORK, 'extract', 'modelrun')
 TRUSTED_BASE = [
     'Coq 8.16.1 kernel including the VM (vm_compute on closed terms: regenerated tables, example replays, byte constants); no native_compute',
     'axioms: none (every property theorem is closed under the global context; counted and audited on every run); Section hypotheses about library codecs (serde_json, arrow2 IPC) are explicit premises of the C02/C18 entry-level theorems',
-    'tools/rust2coq.py: that the regenerated definitions and tables (the files under coq/theories/Gen: Funs, Tables, Layouts, WriterSizes, SlppEntries, FrameWrite, Splitter, ReadTail, UbjsonMarkers, WriterRaw, WriterSteps, ParseEvent, ArrowFrame, FrameTranspose, ReadPrologue, SlppHelpers, RollbacksSrc, VersionTextSrc, MeleeStringSrc, HashingSrc, PortOccupancySrc, StartWiring, JsonShape, UbjsonBodies, TarSrc, SlppWriteSrc, SlppReadSrc, SlppOptsSrc; the complete list of this run is in the translator field) mean what the Rust text means; each front end accepts only the statement shapes it knows and fails loudly otherwise',
+    'tools/rust2coq.py: that the regenerated definitions and tables (the files under coq/theories/Gen: Funs, Tables, Layouts, WriterSizes, SlppEntries, FrameWrite, Splitter, ReadTail, UbjsonMarkers, WriterRaw, WriterSteps, ParseEvent, ArrowFrame, FrameTranspose, ReadPrologue, SlppHelpers, RollbacksSrc, VersionTextSrc, MeleeStringSrc, HashingSrc, PortOccupancySrc, StartWiring, JsonShape, UbjsonBodies, TarSrc, SlppWriteSrc, SlppReadSrc, SlppOptsSrc; the complete list of this run is in the translator field) mean what the Rust text means; each front end accepts only the statement shapes it knows and fails loudly otherwise; the source is read through a normalisation pre-pass whose rewrites (binder renaming by position under freshness, literal folding, lt/!gte, map_or, if-let/match, single-use let/const/helper inlining, for/collect) are equivalences of Rust programs under the side conditions listed in tools/selftest/NOTES-tolerance.md',
     'Layout/Sem.v interpreters: reading of the generated idioms (read_<p>::<BE> big-endian, push(Some x), value(i), size_of)',
     'extraction with ExtrOcamlBasic only (bool, option, unit, list, prod, sumbool, sumor; inlined andb/orb), OCaml 4.13.1, modelrun/driver.ml + modes.ml glue (one Obj.magic cast int -> Byte.byte, self-checked at start-up)',
     'Rust harness /verif/harness (pvh) and the Python orchestration, generators, oracles and diff',
